@@ -207,7 +207,23 @@ theorem advanceTo_wf {s : Store} (h : StoreWF s) (o : Nat) : StoreWF (advanceTo 
           · simp only; omega
           · simp only [rebuild_eq_take]; exact hw.desc.take _
 
-theorem computeUpdate_wf {s : Store} (h : StoreWF s) (u : Update) (b t o : Nat) (c : AMap Felt Nat)
+/-- fewer than `2^64` entries: what keeps `tip()+1` from wrapping on a chain whose oldest slot is 0 -/
+def LenLt (s : Store) : Prop := ∀ cur, s = some cur → cur.length < U64
+
+theorem succ64_tip {cur : Reader} (hw : WF cur) (hl : cur.length < U64) {b : Nat}
+    (hlo : ¬ b < cur.oldest) (hgap : ¬ b > succ64 cur.tip) : succ64 cur.tip = cur.tip + 1 := by
+  unfold succ64 at hgap ⊢
+  split
+  · rename_i hwrap
+    exfalso
+    rw [if_pos hwrap] at hgap
+    have := hw.oldest_add
+    have := hw.pos
+    unfold U64 at hl hwrap
+    omega
+  · rfl
+
+theorem computeUpdate_wf {s : Store} (h : StoreWF s) (hl : LenLt s) (u : Update) (b t o : Nat) (c : AMap Felt Nat)
     {chain : Reader} {aff : PreConf}
     (hc : computeUpdate s u b t o c = .changed chain aff) : WF chain := by
   have boot : ∀ {chain aff}, bootstrap u b o c = .changed chain aff → WF chain := by
@@ -239,6 +255,8 @@ theorem computeUpdate_wf {s : Store} (h : StoreWF s) (u : Update) (b t o : Nat) 
           · rename_i hlen0 hal hlo hgap
             obtain ⟨x, l, hx⟩ := hw.nodes_cons
             have htip : cur.tip = x.number := by simp [Reader.tip, hx]
+            have hs := succ64_tip hw (hl cur rfl) hlo hgap
+            rw [hs] at hc hgap
             split at hc
             · -- extend
               rename_i hext
@@ -323,26 +341,139 @@ theorem computeUpdate_wf {s : Store} (h : StoreWF s) (u : Update) (b t o : Nat) 
                       exact ⟨by simp only [List.length_cons]; omega, hw.pos,
                         hdesc.replaceHead rfl⟩
 
-theorem applyUpdate_wf {s : Store} (h : StoreWF s) (u : Update) (b t o : Nat) (c : AMap Felt Nat) :
+theorem applyUpdate_wf {s : Store} (h : StoreWF s) (hl : LenLt s) (u : Update) (b t o : Nat) (c : AMap Felt Nat) :
     StoreWF (applyUpdate s u b t o c).1 := by
   unfold applyUpdate
   split
   · rename_i chain aff hc
-    exact computeUpdate_wf h u b t o c hc
+    exact computeUpdate_wf h hl u b t o c hc
   · exact h
   · exact h
 
-theorem step_wf {s : Store} (h : StoreWF s) (op : Op) : StoreWF (step s op) := by
+/-- number of entries the pointer holds (0 for nil) -/
+def storeLen : Store → Nat
+  | none => 0
+  | some r => r.length
+
+/-- one writer operation adds at most one entry -/
+theorem computeUpdate_len {s : Store} {u : Update} {b t o : Nat} {c : AMap Felt Nat}
+    {chain : Reader} {aff : PreConf} (hc : computeUpdate s u b t o c = .changed chain aff) :
+    chain.length ≤ storeLen s + 1 := by
+  have boot : ∀ {chain aff}, bootstrap u b o c = .changed chain aff → chain.length ≤ 1 := by
+    intro chain aff hb
+    cases u with
+    | block ident verOk txs =>
+      simp only [bootstrap, bootstrapChain] at hb
+      split at hb
+      · cases hb
+      · split at hb
+        · cases hb
+        · cases hb; exact Nat.le_refl _
+    | delta _ _ => cases hb
+    | noChange => cases hb
+  cases s with
+  | none =>
+    have := boot (by simpa [computeUpdate] using hc)
+    simp only [storeLen]; omega
+  | some cur =>
+    unfold computeUpdate at hc
+    simp only [storeLen] at hc ⊢
+    split at hc
+    · have := boot hc; omega
+    · split at hc
+      · cases hc
+      · split at hc
+        · cases hc
+        · split at hc
+          · cases hc
+          · split at hc
+            · cases u with
+              | block ident verOk txs =>
+                simp only [extend] at hc
+                split at hc
+                · cases hc
+                · cases hc; exact Nat.le_refl _
+              | delta _ _ => cases hc
+              | noChange => cases hc
+            · unfold replaceSlot at hc
+              simp only at hc
+              split at hc
+              · cases hc
+              · cases u with
+                | block ident verOk txs =>
+                  simp only at hc
+                  split at hc
+                  · cases hc
+                  · split at hc
+                    · cases hc
+                    · cases hc; simp only; omega
+                | delta ident txs =>
+                  simp only at hc
+                  split at hc
+                  · cases hc
+                  · split at hc
+                    · cases hc
+                    · split at hc
+                      · cases hc
+                      · cases hc; simp only; omega
+                | noChange =>
+                  simp only at hc
+                  split at hc
+                  · cases hc
+                  · split at hc
+                    · cases hc
+                    · split at hc
+                      · cases hc
+                      · cases hc; simp only; omega
+
+theorem step_len (s : Store) (op : Op) : storeLen (step s op) ≤ storeLen s + 1 := by
   cases op with
-  | apply u b t o c => exact applyUpdate_wf h u b t o c
+  | apply u b t o c =>
+    simp only [step, applyUpdate]
+    split
+    · rename_i chain aff hc
+      exact computeUpdate_len hc
+    · exact Nat.le_succ _
+    · exact Nat.le_succ _
+  | advance o =>
+    cases s with
+    | none => simp [step, advanceTo, storeLen]
+    | some cur =>
+      simp only [step, advanceTo]
+      split
+      · exact Nat.le_succ _
+      · split
+        · exact Nat.le_succ _
+        · split
+          · simp [storeLen]
+          · simp only [storeLen]; omega
+
+theorem lenLt_of {s : Store} (h : storeLen s < U64) : LenLt s := by
+  intro cur hs; subst hs; exact h
+
+theorem step_wf {s : Store} (h : StoreWF s) (hl : storeLen s < U64) (op : Op) : StoreWF (step s op) := by
+  cases op with
+  | apply u b t o c => exact applyUpdate_wf h (lenLt_of hl) u b t o c
   | advance o => exact advanceTo_wf h o
 
-theorem foldl_step_wf (ops : List Op) {s : Store} (h : StoreWF s) : StoreWF (ops.foldl step s) := by
-  induction ops generalizing s with
-  | nil => exact h
-  | cons op rest ih => exact ih (step_wf h op)
+/-- the invariant along a history: well-formed, and never more entries than operations so far -/
+theorem foldl_step_wf (ops : List Op) {s : Store} {n : Nat} (h : StoreWF s) (hn : storeLen s ≤ n)
+    (hb : n + ops.length < U64) :
+    StoreWF (ops.foldl step s) ∧ storeLen (ops.foldl step s) ≤ n + ops.length := by
+  induction ops generalizing s n with
+  | nil => exact ⟨h, by simpa using hn⟩
+  | cons op rest ih =>
+    simp only [List.foldl_cons, List.length_cons] at hb ⊢
+    have hl : storeLen s < U64 := by omega
+    have hs := step_len s op
+    have := ih (s := step s op) (n := n + 1) (step_wf h hl op) (by omega) (by omega)
+    exact ⟨this.1, by omega⟩
 
-theorem run_wf (ops : List Op) : StoreWF (run ops) := foldl_step_wf ops (s := none) trivial
+/-- `ops.length < 2^64`: the histories the theorems speak about. (A chain whose oldest slot is 0
+and whose tip is `2^64-1` — `2^64` entries — is where `tip()+1` wraps in the code and the model
+alike; it takes `2^64` operations to build.) -/
+theorem run_wf (ops : List Op) (hb : ops.length < U64) : StoreWF (run ops) :=
+  (foldl_step_wf ops (s := none) (n := 0) trivial (Nat.le_refl _) (by simpa using hb)).1
 
 /-! ### what a snapshot of a well-formed chain is -/
 
@@ -373,5 +504,26 @@ theorem snapshot_spec {s : Store} (h : StoreWF s) (b : Nat) :
         rw [hd.take_numbers _ hle]
         congr 1
         omega
+
+/-- maximality: the view for `b` is non-empty exactly when `b` lies in the stored chain, and then it
+reaches up to the stored tip (it IS the stored list, cut to `tip - b + 1` entries) -/
+theorem snapshot_maximal {cur : Reader} (h : WF cur) (b : Nat) :
+    (cur.oldest ≤ b ∧ b ≤ cur.tip →
+      (snapshotFor (some cur) b).length = cur.tip - b + 1 ∧
+      (snapshotFor (some cur) b).nodes = cur.nodes ∧
+      (snapshotFor (some cur) b).newestFirst.head? = cur.nodes.head?) ∧
+    (¬ (cur.oldest ≤ b ∧ b ≤ cur.tip) → (snapshotFor (some cur) b).length = 0) := by
+  constructor
+  · intro hb
+    have hc : cur.contains b = true := contains_iff.mpr ⟨h.pos, hb.1, hb.2⟩
+    simp only [snapshotFor, hc, Bool.not_true, Bool.false_eq_true, ↓reduceIte, true_and]
+    obtain ⟨x, l, hx⟩ := h.nodes_cons
+    simp [Reader.newestFirst, hx]
+  · intro hb
+    have hc : cur.contains b = false := by
+      cases hcc : cur.contains b with
+      | false => rfl
+      | true => obtain ⟨_, h1, h2⟩ := contains_iff.mp hcc; exact absurd ⟨h1, h2⟩ hb
+    simp [snapshotFor, hc, Reader.empty]
 
 end Juno.C20
